@@ -113,6 +113,10 @@ pub fn run(ctx: &mut RunCtx) -> Result<(), Violation> {
         ("label_hex", J::s(crate::prng::hex(&sc.label))),
         ("reference_digests", J::A(d.iter().map(|x| J::s(format!("{:016x}", x))).collect())),
     ]));
+    if ctx.spec.flag("refonly") {
+        // digest-only mode (build comparison): the sequential specification is all that is needed
+        return Ok(());
+    }
     if sc.constraints.next_power_of_two() * 8 >= 4096 {
         ctx.st.probe("quotient_domain_ge_2^12");
     }
